@@ -72,8 +72,9 @@ def dispatch (c : Cfg) : Option Out :=
     | some pairs =>
       let merged := mergeForm c.reqForm c.clientForm
       if c.multipart then
-        some ⟨.multipart, some (Req.Multipart.write c.boundary (pairs ++ flatten merged) c.files),
-              Req.Multipart.formDataContentType c.boundary⟩
+        match Req.Multipart.writeChecked c.boundary (pairs ++ flatten merged) c.files with
+        | .ok body => some ⟨.multipart, some body, Req.Multipart.formDataContentType c.boundary⟩
+        | .error _ => none   -- a refused field / file fails the call (fixes/C17-6, C17-7)
       else if !merged.isEmpty || !pairs.isEmpty then
         some ⟨.form, some (joinAmp (encodePairs pairs) (encode merged)), formCT⟩
       else
